@@ -59,6 +59,13 @@ Theorem C02_v1_agree : forall nthash password sc,
 Proof. exact v1_agree. Qed.
 Print Assumptions C02_v1_agree.
 
+(* String() is the upper-case hexadecimal form of that response *)
+Theorem C02_v1_string : forall nthash password sc,
+  length nthash = 16%nat -> length sc = 8%nat ->
+  ntlmv1_string nthash password sc = Ok (hex_of_bytes true (desl nthash sc)).
+Proof. exact v1_string. Qed.
+Print Assumptions C02_v1_string.
+
 (* From a password (NewNTLMv1WithPassword): Hash = NTResponse = DESL(NTOWFv1(password), challenge) and
    LMResponse = DESL(LM hash, challenge), for every password and 8-byte challenge. *)
 Theorem C02_v1_password : forall upper password sc,
